@@ -39,7 +39,8 @@ ASSUMPTIONS = [
     "the library computes in float32 (config dtype_real); measured/fitted centres are judged at 1e-3 px / 1e-2 px against float64 oracles (measured floors 5e-6 / 4.6e-5 over 50 000 thorough cases)",
     "intensities are strictly positive and masks keep at least a quarter of the detector, so every pattern has positive mass (finite mask all True, as in the property's domain)",
     "exact-surface fits are only judged for float inputs (integer counts cannot put a CoM exactly on a plane) and the parabola fit only for scans >= 3x3 (full-rank design)",
-    "shift-to-corner is judged only for exactly integer fitted origins lying on the detector, target coordinate (0,0)",
+    "shifts are judged against np.roll only for exactly integer fitted origins: target (0,0) = roll by -origin (the property), integer targets = roll by (target - origin) (shift_origin_to's documented 'target origin position'); fractional origins/targets are judged only differentially (history vs fresh twin)",
+    "cross-instance: a fresh model created after a history (incl. shifts / forward() to non-default targets on another instance with the same detector shape) must reproduce the fresh model created before it",
     "explicit probe positions for the PCA plane fit are non-collinear with slopes |a| <= 2 px per position unit",
 ]
 BUDGET = {"quick": {"soft_s": 100}, "thorough": {"soft_s": 500}}
@@ -47,6 +48,7 @@ MIN_EVALUATIONS = {"quick": 1000, "thorough": 20000}
 REQUIRED_COUNTERS = [
     "eval:state_preserved",
     "eval:history_vs_fresh_twin",
+    "eval:cross_instance_dependence",
     "eval:com_vs_oracle",
     "eval:vectorized_vs_looped",
     "eval:batch_invariance",
@@ -121,7 +123,9 @@ def plan(tier, seed):
         scan = _shape(rng, 1, 6, False)
         det = _shape(rng, 4, 20, rng.random() < 0.8)
         specs.append({"kind": "shift", "scan": scan, "det": det, "mode": MODES[k % 3], "route": ["setter", "setter", "constant_fit", "dataset"][int(rng.integers(4))]})
-    return specs
+    # interleave the kinds: when the soft time budget expires on a loaded machine every kind has still been run
+    order = rng.permutation(len(specs))
+    return [specs[i] for i in order]
 
 
 def setup(ctx):
@@ -474,6 +478,27 @@ def _run_shift(spec, idx, ctx):
                 base = S
             else:
                 ctx.close(_maxabs(S - base) / scale, TOL_BATCH, "batch_invariance", lambda: "shift_origin_to(max_batch_size=%r) differs from the un-batched result" % (b,), impl="origin_model", stage="shift_origin_to")
+        # integer target other than the corner: the origin moves to the target, i.e. roll by (target - origin)
+        for rep in range(2):
+            tgt = (H // 2, W // 2) if rep == 0 else (int(rng.integers(0, H)), int(rng.integers(0, W)))
+            b = [None, int(rng.integers(1, n + 1))][int(rng.integers(2))]
+            m.shift_origin_to(tgt, b, mode)
+            S = m.shifted_tensor.detach().numpy().astype(np.float64).reshape(n, H, W)
+            ref_t = np.stack([np.roll(flat[k], (tgt[0] - org[k, 0], tgt[1] - org[k, 1]), axis=(0, 1)) for k in range(n)]).astype(np.float64)
+            ctx.close(_maxabs(S - ref_t) / scale, TOL_ROLL if mode != "nearest" else 0.0, "shift_is_roll", lambda: "shifted_tensor != np.roll(pattern, target - origin) for target %r (mode=%s)" % (tgt, mode), impl="origin_model", mode=mode, batch="target_" + ("centre" if rep == 0 else "random"))
+            # ... and the corner shift afterwards, on this instance and on a fresh one with the same detector shape
+            m.shift_origin_to((0, 0), b, mode)
+            S = m.shifted_tensor.detach().numpy().astype(np.float64).reshape(n, H, W)
+            ctx.close(_maxabs(S - ref) / scale, TOL_ROLL if mode != "nearest" else 0.0, "shift_is_roll", lambda: "corner shift after a shift to target %r is no longer np.roll(pattern, -origin) (mode=%s)" % (tgt, mode), impl="origin_model", mode=mode, batch="corner_after_target")
+        m2 = ctx.state["COM"].from_dataset(ctx.state["D4"].from_array(A.copy()))
+        m2.calculate_origin(None)
+        om2 = m2.origin_measured.detach().numpy().astype(np.float64)
+        o_r, o_c = _oracle_com(A)
+        _judge_com(ctx, om2[:, 0].reshape(nr, nc), om2[:, 1].reshape(nr, nc), o_r, o_c, TOL_COM, impl="origin_model", path="other_instance_after_target_shift", entry="calculate_origin", masked=False, batch="none")
+        m2.origin_fitted = torch.tensor(org.astype(np.float32))
+        m2.shift_origin_to(max_batch_size=None, mode=mode)
+        S = m2.shifted_tensor.detach().numpy().astype(np.float64).reshape(n, H, W)
+        ctx.close(_maxabs(S - ref) / scale, TOL_ROLL if mode != "nearest" else 0.0, "shift_is_roll", lambda: "corner shift on a fresh model after another instance shifted to a non-zero target != np.roll(pattern, -origin) (mode=%s)" % mode, impl="origin_model", mode=mode, batch="other_instance")
         ctx.check(np.array_equal(np.asarray(m.tensor), A), "input_mutated", "shift_origin_to modified the model's tensor", impl="origin_model")
     ctx.nontrivial(("shift", tuple(spec["scan"]), tuple(spec["det"]), mode, route), H != W and bool(np.any(org[:, 0] != org[:, 1])) and bool(np.any(org != 0)))
     ctx.observe(n=n, origins=org[:4], route=route, mode=mode)
@@ -499,16 +524,29 @@ def _history_origin_model(spec, idx, ctx, rng, A, orr, occ):
     state = {"measured": None, "fit_method": None, "fitted": None, "shift_args": None, "shifted": None}
     twins = {}
 
-    def twin(fit_method, mode=None):
-        key = (fit_method, mode)
+    def make_twin(fit_method, mode=None, coord=(0, 0)):
+        t = COM.from_dataset(D4.from_array(A.copy()))
+        t.calculate_origin(None)
+        t.fit_origin_background(fit_method=fit_method)
+        if mode is not None:
+            t.shift_origin_to(coord, None, mode)
+        return (_np(t.origin_fitted), _np(t.shifted_tensor), _np(t.origin_measured))
+
+    def twin(fit_method, mode=None, coord=(0, 0)):
+        key = (fit_method, mode, tuple(coord))
         if key not in twins:
-            t = COM.from_dataset(D4.from_array(A.copy()))
-            t.calculate_origin(None)
-            t.fit_origin_background(fit_method=fit_method)
-            if mode is not None:
-                t.shift_origin_to((0, 0), None, mode)
-            twins[key] = (_np(t.origin_fitted), _np(t.shifted_tensor))
+            twins[key] = make_twin(fit_method, mode, coord)
         return twins[key]
+
+    def target():
+        u = rng.random()
+        if u < 0.35:
+            return (0, 0)
+        if u < 0.75:  # integer target on the detector (e.g. the centre pixel)
+            return (H // 2, W // 2) if rng.random() < 0.4 else (int(rng.integers(0, H)), int(rng.integers(0, W)))
+        return (float(rng.uniform(0, H - 1)), float(rng.uniform(0, W - 1)))
+
+    baseline = make_twin("plane", "bilinear", (0, 0))  # a fresh instance BEFORE the history
 
     def audit(after):
         f = dict(impl="origin_model", after=after)
@@ -525,8 +563,8 @@ def _history_origin_model(spec, idx, ctx, rng, A, orr, occ):
             sh = _np(m.shifted_tensor)
             scale = _maxabs(state["shifted"]) or 1.0
             ctx.close(_maxabs(sh - state["shifted"]) / scale, TOL_STATE, "state_preserved", lambda: "shifted_tensor read after %s differs from the result of the last shift_origin_to" % after, attr="shifted_tensor", **f)
-            fm, mode = state["shift_args"]
-            ctx.close(_maxabs(sh - twin(fm, mode)[1]) / scale, TOL_STATE, "history_vs_fresh_twin", lambda: "shifted_tensor after the history (last op %s) differs from a fresh model that ran calculate -> fit(%s) -> shift(%s)" % (after, fm, mode), attr="shifted_tensor", **f)
+            fm, mode, coord = state["shift_args"]
+            ctx.close(_maxabs(sh - twin(fm, mode, coord)[1]) / scale, TOL_STATE, "history_vs_fresh_twin", lambda: "shifted_tensor after the history (last op %s) differs from a fresh model that ran calculate -> fit(%s) -> shift(%s, target %r)" % (after, fm, mode, coord), attr="shifted_tensor", target="corner" if tuple(coord) == (0, 0) else "other", **f)
 
     ops = []
     length = int(rng.integers(5, 10))
@@ -558,23 +596,37 @@ def _history_origin_model(spec, idx, ctx, rng, A, orr, occ):
             ops.append("estimate_detector_rotation")
         elif op == "shift":
             mode = MODES[int(rng.integers(len(MODES)))]
-            m.shift_origin_to((0, 0), b, mode)
-            state["shifted"], state["shift_args"] = _np(m.shifted_tensor), (state["fit_method"], mode)
-            ops.append("shift_origin_to(%s,%r)" % (mode, b))
+            coord = target()
+            if tuple(coord) == (0, 0) and rng.random() < 0.5:
+                m.shift_origin_to(max_batch_size=b, mode=mode)
+            else:
+                m.shift_origin_to(coord, b, mode)
+            state["shifted"], state["shift_args"] = _np(m.shifted_tensor), (state["fit_method"], mode, coord)
+            state["nonzero_target"] = state.get("nonzero_target") or tuple(coord) != (0, 0)
+            ops.append("shift_origin_to(%r,%s,%r)" % (coord, mode, b))
         else:
             if step == 0 and spec["first"] == "forward_default":
                 m.forward()
-                fm, mode = "plane", "bilinear"
+                fm, mode, coord = "plane", "bilinear", (0, 0)
                 ops.append("forward()")
             else:
-                fm, mode = ["plane", "constant"][int(rng.integers(2))], MODES[int(rng.integers(len(MODES)))]
-                m.forward(max_batch_size=b, fit_method=fm, estimate_detector_orientation=bool(rng.random() < 0.7), mode=mode)
-                ops.append("forward(%r,%s,%s)" % (b, fm, mode))
+                fm, mode, coord = ["plane", "constant"][int(rng.integers(2))], MODES[int(rng.integers(len(MODES)))], target()
+                m.forward(max_batch_size=b, fit_method=fm, estimate_detector_orientation=bool(rng.random() < 0.7), origin_coordinate=coord, mode=mode)
+                ops.append("forward(%r,%s,%s,target %r)" % (b, fm, mode, coord))
             if state["measured"] is None:
                 state["measured"] = _np(m.origin_measured)
             state["fit_method"], state["fitted"] = fm, _np(m.origin_fitted)
-            state["shifted"], state["shift_args"] = _np(m.shifted_tensor), (fm, mode)
+            state["shifted"], state["shift_args"] = _np(m.shifted_tensor), (fm, mode, coord)
+            state["nonzero_target"] = state.get("nonzero_target") or tuple(coord) != (0, 0)
         audit(ops[-1].split("(")[0])
+    # ---- other instances in the same process: a fresh model created AFTER the history must behave like the one created before
+    after = make_twin("plane", "bilinear", (0, 0))
+    g = dict(impl="origin_model", after_nonzero_target=bool(state.get("nonzero_target")))
+    om = after[2]
+    _judge_com(ctx, om[:, 0].reshape(nr, nc), om[:, 1].reshape(nr, nc), orr, occ, TOL_COM, impl="origin_model", path="other_instance_after_history", entry="calculate_origin", masked=False, batch="none")
+    ctx.close(_maxabs(after[2] - baseline[2]), TOL_STATE, "cross_instance_dependence", "a fresh model's origin_measured depends on what another instance did before in the same process", attr="origin_measured", **g)
+    ctx.close(_maxabs(after[0] - baseline[0]), TOL_STATE, "cross_instance_dependence", "a fresh model's origin_fitted depends on what another instance did before in the same process", attr="origin_fitted", **g)
+    ctx.close(_maxabs(after[1] - baseline[1]) / (_maxabs(baseline[1]) or 1.0), TOL_STATE, "cross_instance_dependence", "a fresh model's corner-shifted tensor depends on what another instance did before in the same process", attr="shifted_tensor", **g)
     return ops
 
 
